@@ -89,6 +89,10 @@ Fixpoint insert_key (k : string) (l : list string) : list string :=
   end.
 Definition sort_keys (l : list string) : list string := fold_right insert_key [] l.
 
+(* .keyvalue() ids stand for "base object id and address offset"; the specification
+   leaves them abstract: this marker.  Their properties are stated separately (C16). *)
+Definition kv_abstract_id : Z := -4611686018427391111.
+
 Section Sem.
 Variable L : ExecLib.
 Variable C : cenv.
@@ -382,7 +386,7 @@ Fixpoint ev (s : step) {struct s} : itemfn * predfn :=
               match x with
               | JObj _ members =>
                   tbind_list
-                    (map (fun key => JObj 0 [("id", JNum (NInt 0)); ("key", JStr key);
+                    (map (fun key => JObj 0 [("id", JNum (NInt kv_abstract_id)); ("key", JStr key);
                                              ("value", match lookup key members with Some y => y | None => JNull end)]%string)
                          (sort_keys (map fst members)))
                     (k lastsz ig)
